@@ -223,15 +223,23 @@ Proof.
   intros Hc H. apply has_char_join; [|exact H]. cbn [has_char]. rewrite orb_false_r. apply Ascii.eqb_neq. congruence.
 Qed.
 
-(* strings.Split(strings.Join(ms, ","), ","): an empty list comes back as [""] (finding C16-F6) *)
-Definition norm_members (ms : list string) : list string := match ms with [] => [""] | _ => ms end.
+(* GroupEntry.Parse since fix C16-F6: an empty member field is no member. The one list
+   the format cannot carry is [""] (a single member with the empty name): it is
+   written like the empty list and comes back as the empty list. *)
+Definition norm_members (ms : list string) : list string := match ms with [""] => [] | _ => ms end.
 Definition norm_group (g : group) : group := mkGroup (g_name g) (g_pass g) (g_gid g) (norm_members (g_members g)).
 
-Lemma split_join_members ms : Forall member_ok ms -> split_on "," (join "," ms) = norm_members ms.
+Lemma split_join_members ms : Forall member_ok ms ->
+  (if join "," ms =? "" then [] else split_on "," (join "," ms)) = norm_members ms.
 Proof.
   intro H. destruct ms as [|m ms]; [reflexivity|].
-  change "," with (String ","%char ""). apply split_join; [discriminate|].
-  eapply Forall_impl; [|exact H]. intros x (_ & _ & Hx). exact Hx.
+  assert (S : split_on "," (join "," (m :: ms)) = m :: ms).
+  { change "," with (String ","%char ""). apply split_join; [discriminate|].
+    eapply Forall_impl; [|exact H]. intros x (_ & _ & Hx). exact Hx. }
+  destruct ms as [|m' ms].
+  - cbn [join] in *. destruct m as [|a m]; [reflexivity|]. cbn [String.eqb norm_members]. exact S.
+  - rewrite S. replace (join "," (m :: m' :: ms) =? "") with false; [destruct m; reflexivity|].
+    symmetry. apply String.eqb_neq. rewrite join_cons2. destruct m; discriminate.
 Qed.
 
 Lemma group_line_facts g : group_ok g ->
@@ -282,31 +290,36 @@ Proof.
     split; [split; [exact A | apply ends_space_not_cr, B] | apply H].
 Qed.
 
-Lemma norm_group_id g : g_members g <> [] -> norm_group g = g.
-Proof. destruct g as [n p i [|m ms]]; cbn; [congruence|reflexivity]. Qed.
+Lemma norm_group_id g : g_members g <> [""] -> norm_group g = g.
+Proof. destruct g as [n p i [|[|a m] [|m' ms]]]; cbn; try reflexivity. congruence. Qed.
 
-Theorem groups_roundtrip gs : Forall group_ok gs -> Forall (fun g => g_members g <> []) gs ->
+Theorem groups_roundtrip gs : Forall group_ok gs -> Forall (fun g => g_members g <> [""]) gs ->
   load_groups (write_groups gs) = Ok gs.
 Proof.
   intros H1 H2. rewrite (groups_readback gs H1). f_equal.
   induction H2 as [|g gs Hg _ IH]; [reflexivity|]. inversion H1; subst. cbn [map]. rewrite (norm_group_id g Hg), IH by assumption. reflexivity.
 Qed.
 
-(* a group without members does not come back (finding C16-F6) *)
-Definition witness_group : group := mkGroup "g" "x" 5 [].
+(* the one member list the format cannot carry: a single member with the empty name *)
+Definition witness_group : group := mkGroup "g" "x" 5 [""].
 Lemma witness_group_ok : group_ok witness_group.
-Proof. constructor; try (split; reflexivity); try constructor; try reflexivity; vm_compute; (reflexivity || discriminate). Qed.
-Theorem groups_empty_members_refuted :
+Proof. constructor; try (split; reflexivity); try (repeat constructor); try reflexivity; vm_compute; (reflexivity || discriminate). Qed.
+Theorem groups_single_empty_name_refuted :
   group_ok witness_group /\ ~ GroupsRoundTrip [witness_group] (load_groups (write_groups [witness_group])) /\
-  groups_rt_tags [witness_group] (load_groups (write_groups [witness_group])) = ["viol:group-empty-members-read-as-one-empty-name"].
+  write_groups [witness_group] = write_groups [mkGroup "g" "x" 5 []] /\
+  groups_rt_tags [witness_group] (load_groups (write_groups [witness_group])) = ["viol:group-members-changed"].
 Proof.
-  split; [exact witness_group_ok|]. split; [|vm_compute; reflexivity].
+  split; [exact witness_group_ok|]. split; [|split; vm_compute; reflexivity].
   unfold GroupsRoundTrip. vm_compute. discriminate.
 Qed.
+(* a group without members comes back without members (regression replay of C16-F6) *)
+Theorem groups_no_members_roundtrip :
+  load_groups (write_groups [mkGroup "g" "x" 5 []]) = Ok [mkGroup "g" "x" 5 []].
+Proof. vm_compute. reflexivity. Qed.
 
 (* the writer does not tell [] from [""]: reading then writing again reproduces the file *)
 Lemma write_group_norm g : write_group (norm_group g) = write_group g.
-Proof. destruct g as [n p i [|m ms]]; reflexivity. Qed.
+Proof. destruct g as [n p i [|[|a m] [|m' ms]]]; reflexivity. Qed.
 Theorem groups_read_write_fixpoint gs : Forall group_ok gs ->
   exists l, load_groups (write_groups gs) = Ok l /\ write_groups l = write_groups gs.
 Proof.
